@@ -21,7 +21,7 @@ class Fn:
 
     def __init__(self, file, sig, name, head, head_expect=None, rules=(), contract='',
                  loops=None, nloops=None, reach=True, after=None, occurrence=0,
-                 strip_asserts=False):
+                 strip_asserts=False, ref_params=None):
         self.file = file
         self.sig = sig
         self.name = name
@@ -35,6 +35,7 @@ class Fn:
         self.after = after
         self.occurrence = occurrence
         self.strip_asserts = strip_asserts
+        self.ref_params = dict(ref_params or {})   # {C++ reference parameter: its value type in C}: see run.extract_fn
 
 
 class Block:
